@@ -153,8 +153,8 @@ func (r *request) claim(path ...string) (metaVal, bool) {
 }
 
 func mvalForm(v string, x metaVal, ok bool) bool {
-	if !ok {
-		return false
+	if !ok || x.other {
+		return false // absent, or a number / bool / object: equals no string value
 	}
 	if x.isList {
 		for _, e := range x.l {
@@ -306,7 +306,7 @@ func specAtom(a attrKind, pns, key, v string, r *request) bool {
 	case aReqPrincipal:
 		iss, ok1 := r.claim("iss")
 		sub, ok2 := r.claim("sub")
-		if !(ok1 && ok2 && !iss.isList && !sub.isList && iss.s != "" && sub.s != "") {
+		if !(ok1 && ok2 && !iss.isList && !sub.isList && !iss.other && !sub.other && iss.s != "" && sub.s != "") {
 			return false // request.auth.principal = <iss>/<sub>, defined when both claims are non-empty strings
 		}
 		if isLoose("jwt", v) && !strings.HasPrefix(v, "*") && strings.HasSuffix(v, "*") && v != "*" {
@@ -334,7 +334,7 @@ func specAtom(a attrKind, pns, key, v string, r *request) bool {
 			return false
 		}
 		x, found := r.metaLookup(f, []string{k})
-		if !found {
+		if !found || x.other {
 			return false
 		}
 		if strings.HasPrefix(v, "[") && strings.HasSuffix(v, "]") {
@@ -654,26 +654,31 @@ func policyMatches(p *model.AuthorizationPolicy, r *request) bool {
 //   - workload WITH that label (a Gateway API gateway): without targetRefs the selector decides; with targetRefs
 //     some reference must name this Gateway (group gateway.networking.k8s.io, kind Gateway, same namespace).
 func (s *sut) applies(p *model.AuthorizationPolicy) bool {
+	// (transcription of Spec.lean `applies`, from the API documentation of selector / targetRefs)
 	waypoint := s.proxyType == model.Waypoint && !s.term
-	if p.Namespace != s.rootNS && p.Namespace != s.wlNS && !(s.svc != nil && p.Namespace == s.svc[1]) {
-		return false
+	svc := s.svc
+	if s.term {
+		svc = nil
 	}
-	selected := true
-	for k, v := range p.Spec.GetSelector().GetMatchLabels() {
-		if w, ok := s.wlLabels[k]; !ok || w != v {
-			selected = false
-		}
+	if p.Namespace != s.rootNS && p.Namespace != s.wlNS && !(svc != nil && p.Namespace == svc.ns) {
+		return false
 	}
 	refs := p.Spec.GetTargetRefs()
 	if len(refs) == 0 && p.Spec.GetTargetRef() != nil {
 		refs = append(refs, p.Spec.GetTargetRef())
 	}
 	gw, isGW := s.wlLabels["gateway.networking.k8s.io/gateway-name"]
-	if !isGW {
-		return len(refs) == 0 && selected
-	}
 	if len(refs) == 0 {
-		return !waypoint && selected // a waypoint never takes selector policies
+		for k, v := range p.Spec.GetSelector().GetMatchLabels() {
+			if w, ok := s.wlLabels[k]; !ok || w != v {
+				return false
+			}
+		}
+		// Gateway API gateways take selector policies only with the feature on; waypoints never
+		return !isGW || (!waypoint && !s.noSelectorGW)
+	}
+	if !isGW {
+		return false
 	}
 	is := func(ref *typepb.PolicyTargetReference, group, kind string) bool {
 		g := ref.GetGroup()
@@ -682,20 +687,72 @@ func (s *sut) applies(p *model.AuthorizationPolicy) bool {
 		}
 		return g == group && ref.GetKind() == kind
 	}
+	svcName := ""
+	if svc != nil {
+		svcName = svc.name
+		if svc.objectName != "" {
+			svcName = svc.objectName
+		}
+	}
 	for _, ref := range refs {
 		switch {
-		case waypoint && is(ref, "core", "Service") && s.svc != nil && ref.GetName() == s.svc[0] && p.Namespace == s.svc[1] && s.svc[2] == "k8s":
-			return true
-		case waypoint && is(ref, "networking.istio.io", "ServiceEntry") && s.svc != nil && ref.GetName() == s.svc[0] && p.Namespace == s.svc[1] && s.svc[2] != "k8s":
-			return true
-		case waypoint && p.Namespace == s.rootNS && is(ref, "gateway.networking.k8s.io", "GatewayClass") && ref.GetName() == "istio-waypoint":
-			return true
-		case p.Namespace == s.wlNS && (ref.GetNamespace() == "" || ref.GetNamespace() == s.wlNS) &&
-			is(ref, "gateway.networking.k8s.io", "Gateway") && ref.GetName() == gw:
-			return true
+		case is(ref, "gateway.networking.k8s.io", "Gateway"):
+			if ref.GetName() == gw && p.Namespace == s.wlNS && (ref.GetNamespace() == "" || ref.GetNamespace() == s.wlNS) {
+				return true
+			}
+		case is(ref, "gateway.networking.k8s.io", "GatewayClass"):
+			if waypoint && ref.GetName() == "istio-waypoint" && p.Namespace == s.rootNS {
+				return true
+			}
+		case is(ref, "core", "Service"):
+			if waypoint && svc != nil && svc.k8s && svcName == ref.GetName() && svc.ns == p.Namespace {
+				return true
+			}
+		case is(ref, "networking.istio.io", "ServiceEntry"):
+			if waypoint && svc != nil && !svc.k8s && svcName == ref.GetName() && svc.ns == p.Namespace {
+				return true
+			}
 		}
 	}
 	return false
+}
+
+// attachBranch names the clause by which a policy applies (evidence counters only).
+func (s *sut) attachBranch(p *model.AuthorizationPolicy) string {
+	if !s.applies(p) {
+		return "none"
+	}
+	refs := p.Spec.GetTargetRefs()
+	if len(refs) == 0 && p.Spec.GetTargetRef() != nil {
+		return "legacy-targetRef"
+	}
+	if len(refs) == 0 {
+		if p.Spec.GetSelector() == nil {
+			return "namespace-wide"
+		}
+		return "selector"
+	}
+	kinds := map[string]bool{}
+	for _, r := range refs {
+		kinds[r.GetKind()] = true
+	}
+	for _, k := range []string{"Service", "ServiceEntry", "GatewayClass", "Gateway"} {
+		if kinds[k] {
+			q := *p
+			sp := *p.Spec
+			q.Spec = &sp
+			q.Spec.TargetRefs = nil
+			for _, r := range refs {
+				if r.GetKind() == k {
+					q.Spec.TargetRefs = append(q.Spec.TargetRefs, r)
+				}
+			}
+			if s.applies(&q) {
+				return "targetRef-" + k
+			}
+		}
+	}
+	return "targetRef-other"
 }
 
 // customDenies: a CUSTOM policy delegates to its extension provider (taken to allow here). It is
